@@ -212,6 +212,42 @@ func init() {
 			atomic.AddInt64(&ntTriples, nt)
 		})
 		r.Sample(bson.M{"triple": []string{J(pool[40]), J(pool[41]), J(pool[42])}})
+		// values that share memory: a prefix of an array or document (same backing array, other length) and the same value
+		// reached twice compare exactly like independent copies of them, alone and nested in containers
+		var aliasChecks int64
+		for _, v := range pool {
+			var views [][2]interface{} // (view sharing memory with v, independent copy of the view)
+			switch x := v.(type) {
+			case bson.A:
+				for n := 0; n < len(x); n++ {
+					views = append(views, [2]interface{}{x[:n], refmodel.Copy(x[:n])})
+				}
+			case bson.D:
+				for n := 0; n < len(x); n++ {
+					views = append(views, [2]interface{}{x[:n], refmodel.Copy(x[:n])})
+				}
+			default:
+				continue
+			}
+			views = append(views, [2]interface{}{v, refmodel.Copy(v)})
+			for _, vw := range views {
+				for _, wrap := range []func(interface{}) interface{}{
+					func(z interface{}) interface{} { return z },
+					func(z interface{}) interface{} { return bson.A{int32(1), z} },
+					func(z interface{}) interface{} { return bson.D{{Key: "k", Value: int32(1)}, {Key: "z", Value: z}} },
+				} {
+					aliasChecks++
+					a, b, bc := wrap(v), wrap(vw[0]), wrap(vw[1])
+					if got, want := bsonkit.Compare(a, b), bsonkit.Compare(a, bc); got != want {
+						r.Violation(c12Class("shared-memory", a, bc), fmt.Sprintf("Compare(%s, %s) = %d when the second value shares memory with the first, %d when it is an independent copy", J(a), J(bc), got, want), bson.M{"x": J(a), "y": J(bc)})
+					}
+					if got, want := bsonkit.Compare(b, a), bsonkit.Compare(bc, a); got != want {
+						r.Violation(c12Class("shared-memory", bc, a), fmt.Sprintf("Compare(%s, %s) = %d when the first value shares memory with the second, %d when it is an independent copy", J(bc), J(a), got, want), bson.M{"x": J(bc), "y": J(a)})
+					}
+				}
+			}
+		}
+		r.Set("shared_memory_comparisons", aliasChecks)
 		// through the API: a sorted Find and Distinct over a collection holding every pool value agree with the reference order
 		var apiChecks int64
 		{
